@@ -58,7 +58,7 @@ Proof. intros a b H. rewrite <- H. ring. Qed.
 
 Ltac wf_red H :=
   lazy beta iota zeta delta [Model.wf Model.gaussian Model.eqs Model.all_eq Model.eq_ang Model.eq_hyp Model.eq_P Model.eq_CX
-                             Model.zero_flag_ok Model.hf app fst snd
+                             Model.zero_flag_ok Model.fl_ang Model.fl_hyp Model.fl_rp Model.hf app fst snd
                              Model.co Model.si Model.az Model.ch Model.sh Model.hz Model.rv Model.rz] in H.
 
 (* --- every documented transformation is symplectic --- *)
